@@ -163,7 +163,7 @@ def monitor(c, r):
             out.append((f'{o} completed without a violation error but leaves an invariant false: {attrs}', None)); break
         if enabled and o[0] in ('set', 'call', 'callb') and holds is False and prev is not None and attrs != prev and res != 'InvContractError' \
                 and not res.startswith('ok') and not res.startswith('exc KeyError') and not res.startswith('exc AttributeError'):
-            # C05-F2: a method that raises its own exception is not validated on the way out; with stores that __setattr__ does not see
+            # C05-F3: a method that raises its own exception is not validated on the way out; with stores that __setattr__ does not see
             # the broken state escapes under the method's exception
             own_raise = o[0] == 'callb' and res == 'exc ValueError' and (o[2] or any(it[0] == 'inner' and it[2] for it in o[1])) and \
                 any(it[0] == 'raw' or (it[0] == 'inner' and any(r for r, _, _ in it[1])) for it in o[1])
